@@ -50,7 +50,7 @@ ACCT_ENGINES = [
 
 def main(ctx):
     rng = ctx.rng
-    ctx.proof = common.check_proofs('C14', extra_targets=['Model/TrotterCheck.vo', 'Model/TrotterMergeCheck.vo'])
+    ctx.proof = common.check_proofs('C14', extra_targets=['Model/TrotterCheck.vo', 'Model/TrotterMergeCheck.vo', 'Model/TauAcct.vo'])
     boost = 1 if ctx.proof.ok else 2
     # ------------------------------------------------------------------ schedule stream (validates translator output)
     sched = []
@@ -235,9 +235,20 @@ def main(ctx):
                        'options': {'order': o, 'approximation': approx, 'compression_method': comp,
                                    'trunc_params': {'chi_max': 64, 'svd_min': 1e-14, 'trunc_cut': None}}, 'N_steps': 1,
                        'dts': [[16, 16], [8, 32]]})
-    dcases.append({'engine': 'TEBDEngine', 'model': model(TFI), 'state': neel(6), 'order_p': 2, 'imag': True,
-                   'options': {'order': 2, 'trunc_params': {'chi_max': 64, 'svd_min': 1e-14, 'trunc_cut': None}}, 'N_steps': 2,
-                   'dts': [[32, 16], [16, 32]]})
+    NOTRUNC = {'chi_max': 64, 'svd_min': 1e-14, 'trunc_cut': None}
+    # imaginary steps (dt = -i tau, preserve_norm=False): psi.norm * |psi> against exp(-tau H)|psi0> INCLUDING the norm
+    for eng, o, p in [('TEBDEngine', {'order': 2}, 2), ('TEBDEngine', {'order': 4}, 4), ('QRBasedTEBDEngine', {'order': 2}, 2),
+                      ('TwoSiteTDVPEngine', {}, 2), ('ExpMPOEvolution', {'order': 2, 'approximation': 'II', 'compression_method': 'SVD'}, 2),
+                      ('ExpMPOEvolution', {'order': 1, 'approximation': 'I', 'compression_method': 'zip_up'}, 1)]:
+        dcases.append({'engine': eng, 'model': model(TFI if eng == 'TEBDEngine' and o['order'] == 2 else SPIN, conserve='best'),
+                       'state': neel(6), 'order_p': p, 'imag': True,
+                       'options': dict(o, trunc_params=NOTRUNC), 'N_steps': 2 if 'TEBD' in eng else 1, 'dts': [[32, 8], [16, 16]]})
+    # states of maximal bond dimension: one- and two-site TDVP are exact up to the Krylov tolerance, real and imaginary
+    for eng in ('SingleSiteTDVPEngine', 'TwoSiteTDVPEngine'):
+        for imag in (False, True):
+            dcases.append({'engine': eng, 'model': model(SPIN, conserve='best'), 'state': neel(6), 'fullrank': True,
+                           'order_p': None, 'exact': True, 'unitary': not imag, 'imag': imag,
+                           'options': {'trunc_params': NOTRUNC}, 'N_steps': 1, 'dts': [[32, 8], [16, 16]]})
     dcases.append({'engine': 'TimeDependentTEBD', 'model': model(SPIN, conserve='best'), 'state': neel(6), 'order_p': 2,
                    'options': {'order': 2, 'trunc_params': {'chi_max': 64, 'svd_min': 1e-14, 'trunc_cut': None}}, 'N_steps': 2,
                    'dts': [[32, 16], [16, 32]]})
@@ -252,7 +263,8 @@ def main(ctx):
             continue
         (a, b) = x['results']
         probs = []
-        tag = '%s %s' % (c['engine'], {k: v for k, v in c['options'].items() if k != 'trunc_params'})
+        tag = '%s %s%s%s' % (c['engine'], {k: v for k, v in c['options'].items() if k != 'trunc_params'},
+                             ' imaginary step' if c.get('imag') else '', ' full-rank state' if c.get('fullrank') else '')
         for y in (a, b):
             want = y['T']
             got = -y['evolved_im'] if c.get('imag') else y['evolved_re']
@@ -268,16 +280,21 @@ def main(ctx):
                 if c.get('unitary') or c['engine'].endswith('TEBDEngine') or c['engine'] == 'TimeDependentTEBD':
                     if abs(y['vecnorm'] - 1) > 1e-9:
                         probs.append('unitary engine changed the norm by %.3e' % (y['vecnorm'] - 1))
+        if c.get('exact') and max(a['err'], b['err']) > 1e-9:
+            probs.append('tangent-space evolution of a state of maximal bond dimension deviates from exp(-iHt)|psi0> by %.3e '
+                         '(norm ratio %.6f)' % (max(a['err'], b['err']), b['norm_ratio']))
         if b['err'] > 5e-2 and not c.get('no_err_bound'):
             probs.append('error %.3e against exp(-iHt)|psi0> does not become small' % b['err'])
         if c['order_p'] and a['err'] > 1e-9:
             ratio = a['err'] / max(b['err'], 1e-16)
             if ratio < 2 ** (c['order_p'] - 0.75):
                 probs.append('halving dt reduces the error only by %.2f, documented order %d' % (ratio, c['order_p']))
-        ctx.count('dense', [c['engine'], c['options']], nontrivial=True,
-                  sample={'engine': c['engine'], 'options': c['options'], 'err_dt': a['err'], 'err_dt_half': b['err']})
+        ctx.count('dense', [c['engine'], c['options'], bool(c.get('imag')), bool(c.get('fullrank'))], nontrivial=True,
+                  sample={'engine': c['engine'], 'options': c['options'], 'imag': bool(c.get('imag')),
+                          'fullrank': bool(c.get('fullrank')), 'err_dt': a['err'], 'err_dt_half': b['err']})
         if probs:
             ctx.fail('oracle', tag + ': ' + '; '.join(probs), {'stream': 'dense', 'case': c, 'impl': x}, match_key='C14:dense:' + c['engine'])
+    imag_time_stream(ctx)
     ctx.assumptions += [
         'C14: float rounding of repeated addition is not modelled (time steps are multiples of 2^-10, injected truncation errors '
         'multiples of 2^-40, so all sums are exact in float64)',
@@ -286,6 +303,68 @@ def main(ctx):
     ]
     return ctx.finish(RULE, 'schedule theorems on the regenerated suzuki_trotter_* text; accounting theorem over the regenerated '
                       'engine table; model executed against real engines with injected exact truncation errors; dense exp(-iHt) oracle')
+
+
+def imag_time_stream(ctx):
+    """The dedicated imaginary-time entry points (TEBDEngine.run_GS through evolve / update_imag, and
+    PurificationTEBD.run_imaginary): evolved_time = -i * (number of steps performed) * step, counted independently."""
+    NOTRUNC = {'chi_max': 64, 'svd_min': 1e-14, 'trunc_cut': None}
+    cases = []
+    for eng, order, m in [('TEBDEngine', 2, model(TFI)), ('TEBDEngine', 1, model(SPIN, conserve='best')),
+                          ('TEBDEngine', 4, model(SPIN, conserve='best')), ('QRBasedTEBDEngine', 4, model(TFI))]:
+        cases.append({'kind': 'run_gs', 'engine': eng, 'model': m, 'state': neel(6), 'fullrank': order != 2,
+                      'then_real': [[8, 3], [4, 1]] if order in (1, 2) else None,
+                      'tau_ticks': [64, 16], 'options': {'order': order, 'N_steps': 2, 'max_error_E': 2.0 ** -9, 'trunc_params': NOTRUNC}})
+    cases.append({'kind': 'purif', 'model': model(TFI, L=4), 'dt_ticks': 32, 'beta_ticks': [96, 200]})
+    res = common.run_impl_parallel('c14_impl.py', [{'kind': c['kind'], 'cases': [c]} for c in cases])
+    tau_cases, tau_src = [], []
+    for c, (r, err) in zip(cases, res):
+        if err or 'runner_error' in r[0]:
+            ctx.fail('correspondence', 'imaginary-time runner failed: ' + (err or r[0]['runner_error'])[-600:], c)
+            continue
+        x = r[0]
+        probs = []
+        if c['kind'] == 'run_gs':
+            tag = '%s.run_GS(order=%r)' % (c['engine'], c['options']['order'])
+            gs = x['steps'][:x['n_gs']]
+            if not gs or any(s[3] != 'imag' for s in gs) or any(s[3] != 'real' for s in x['steps'][x['n_gs']:]) \
+                    or any(s[0] != int(s[0]) for s in x['steps']):
+                ctx.fail('correspondence', tag + ': unexpected call pattern %r' % (x['steps'][:4],), c)
+                continue
+            want_re = sum(s[0] * s[1] for s in x['steps'] if s[3] == 'real')
+            want_im = -sum(s[0] * s[1] for s in x['steps'] if s[3] == 'imag')
+            # the same history through the model over the regenerated tau table (Gen/G_tau.v)
+            if x['evolved_re_ticks'] == int(x['evolved_re_ticks']) and x['evolved_im_ticks'] == int(x['evolved_im_ticks']):
+                tau_cases.append(coq_lit(([(str(s[3]), int(s[0]), int(s[1])) for s in x['steps']],
+                                          int(x['evolved_re_ticks']), int(x['evolved_im_ticks']))))
+                tau_src.append({'case': c, 'steps': x['steps']})
+            if abs(x['evolved_im_ticks'] - want_im) > 1e-9 or abs(x['evolved_re_ticks'] - want_re) > 1e-9:
+                probs.append('evolved_time (in 2^-10) %r after the calls [delta, N_steps, method, type_evo] %r, expected %r'
+                             % (complex(x['evolved_re_ticks'], x['evolved_im_ticks']), x['steps'][:8], complex(want_re, want_im)))
+            if x['q0'] != x['q1']:
+                probs.append('total charge changed %s -> %s' % (x['q0'], x['q1']))
+            if x['dir_err'] > 2e-2:
+                probs.append('state deviates from exp(-tau H)|psi0>/norm by %.3e' % x['dir_err'])
+            if x['E'] > x['E0'] + 1e-9:
+                probs.append('energy increased in imaginary time: %.6f -> %.6f' % (x['E0'], x['E']))
+            ctx.count('imag-time', [c['engine'], c['options']['order'], sorted(set(s[2] for s in x['steps']))], nontrivial=True,
+                      sample={'engine': c['engine'], 'order': c['options']['order'], 'steps': x['steps'][:6], 'dir_err': x['dir_err']})
+        else:
+            tag = 'PurificationTEBD.run_imaginary'
+            for y in x['results']:
+                if abs(y['evolved_im'] + y['tau']) > 1e-12 or abs(y['evolved_re']) > 1e-12:
+                    probs.append('evolved_time %r after update_imag calls %r, expected -i*%r' % (complex(y['evolved_re'], y['evolved_im']), y['N'], y['tau']))
+                if abs(y['E'] - y['E_thermal']) > 2e-2 * abs(y['E_thermal'] - y['E_infT']):
+                    probs.append('energy %.6f of the purification differs from the thermal value %.6f at beta=2*%.4f' % (y['E'], y['E_thermal'], y['tau']))
+            ctx.count('imag-time', ['PurificationTEBD', len(x['results'])], nontrivial=True, sample=x['results'][-1])
+        if probs:
+            ctx.fail('oracle', tag + ': ' + '; '.join(probs), {'stream': 'imag-time', 'case': c, 'impl': x}, match_key='C14:imag-time:' + tag)
+    bad, err = common.coq_failing_indices('cases_c14_tau', ['Base.Prelude', 'Gen.G_tau', 'Model.TauAcct'], 'check_tau', tau_cases)
+    if err:
+        ctx.fail('correspondence', 'tau model evaluation failed: ' + err[-500:], None)
+    for b in bad[:3]:
+        ctx.fail('correspondence', 'Model/TauAcct.v run_time over the regenerated tau table and the engine disagree on evolved_time', tau_src[b])
+    ctx.count('imag-time', ['tau-model', len(tau_cases)], nontrivial=bool(tau_cases))
 
 
 def py_merge(trace, coeff):
